@@ -277,40 +277,39 @@ theorem resp_step_ok (wv v : Nat) (ph : Ph) (s : CMDResponse.St) (w : RespW) (i 
       rest wv v ph = xfer w i ++ rest wv v ph' ∧ need ph' ≤ need ph - rdyBit i :=
   resp_step wv v ph s w i h hst
 
-/-- the run of one response: idle encoder, a start cycle (`start_resp` high, value `v`, size `s ≥ 1`, any `ready`), then
+/-- the run of one response: idle encoder, a start cycle (`start_resp` high, value `v`, any size `s` incl. 0, any `ready`), then
     ANY list of cycles `cs` (any `ready` pattern, any junk on `vin`/`size`; `start_resp` low).  The run never raises;
     the characters handed over so far are a prefix of the response, the rest is still pending. -/
-theorem resp_run (wv v s : Nat) (hs : 1 ≤ s) (st : CMDResponse.St) (w : RespW) (h0 : st.state = 0) (hv : w.valid = 0)
+theorem resp_run (wv v s : Nat) (st : CMDResponse.St) (w : RespW) (h0 : st.state = 0) (hv : w.valid = 0)
     (i0 : RespIn) (hi : i0.start ≠ 0) (hvin : i0.vin = v) (hsz : i0.size = s)
     (cs : List RespIn) (hst : ∀ i ∈ cs, i.start = 0) :
     ∃ ph' s' w' tr, respRun wv st w (i0 :: cs) = some ((s', w'), tr) ∧ Inv wv v ph' s' w' ∧
       response wv s v = tr ++ rest wv v ph' ∧ need ph' ≤ (2 * s + 4) - readyCount cs := by
-  obtain ⟨s1, w1, e1, h1, x1⟩ := resp_start wv v s hs st w i0 h0 hv hi hvin hsz
+  obtain ⟨s1, w1, e1, h1, x1⟩ := resp_start wv v s st w i0 h0 hv hi hvin hsz
   obtain ⟨ph2, s2, w2, tr, e2, h2, r2, n2⟩ := resp_run_inv wv v cs hst _ s1 w1 h1
   refine ⟨ph2, s2, w2, tr, ?_, h2, ?_, ?_⟩
   · simp [respRun, e1, e2, x1]
-  · have : s - 1 + 1 = s := by omega
-    rw [← r2]; simp [rest, response, this]
-  · have : need (.p1 (s - 1)) = 2 * s + 4 := by simp [need]; omega
+  · rw [← r2]; simp [rest, response]
+  · have : need (.p1 s) = 2 * s + 4 := by simp [need]
     omega
 
 /-- safety, whatever the consumer's pacing (including a consumer that stalls for ever): what has been handed over is
     always a prefix of '=' ++ hex digits (MSB first, upper case) ++ '!' — no wrong, repeated or skipped character -/
-theorem resp_prefix (wv v s : Nat) (hs : 1 ≤ s) (st : CMDResponse.St) (w : RespW) (h0 : st.state = 0) (hv : w.valid = 0)
+theorem resp_prefix (wv v s : Nat) (st : CMDResponse.St) (w : RespW) (h0 : st.state = 0) (hv : w.valid = 0)
     (i0 : RespIn) (hi : i0.start ≠ 0) (hvin : i0.vin = v) (hsz : i0.size = s)
     (cs : List RespIn) (hst : ∀ i ∈ cs, i.start = 0) :
     ∃ f tr, respRun wv st w (i0 :: cs) = some (f, tr) ∧ tr <+: response wv s v := by
-  obtain ⟨ph', s', w', tr, e, _, r, _⟩ := resp_run wv v s hs st w h0 hv i0 hi hvin hsz cs hst
+  obtain ⟨ph', s', w', tr, e, _, r, _⟩ := resp_run wv v s st w h0 hv i0 hi hvin hsz cs hst
   exact ⟨(s', w'), tr, e, ⟨_, r.symm⟩⟩
 
 /-- completion: when the encoder is back in its idle state, exactly the whole response has been handed over, one
     character per valid∧ready handshake, and `valid` is low again -/
-theorem resp_complete (wv v s : Nat) (hs : 1 ≤ s) (st : CMDResponse.St) (w : RespW) (h0 : st.state = 0) (hv : w.valid = 0)
+theorem resp_complete (wv v s : Nat) (st : CMDResponse.St) (w : RespW) (h0 : st.state = 0) (hv : w.valid = 0)
     (i0 : RespIn) (hi : i0.start ≠ 0) (hvin : i0.vin = v) (hsz : i0.size = s)
     (cs : List RespIn) (hst : ∀ i ∈ cs, i.start = 0) (f : CMDResponse.St × RespW) (tr : List Nat)
     (hrun : respRun wv st w (i0 :: cs) = some (f, tr)) (hidle : f.1.state = 0) :
     tr = response wv s v ∧ f.2.valid = 0 := by
-  obtain ⟨ph', s', w', tr', e, hinv, r, _⟩ := resp_run wv v s hs st w h0 hv i0 hi hvin hsz cs hst
+  obtain ⟨ph', s', w', tr', e, hinv, r, _⟩ := resp_run wv v s st w h0 hv i0 hi hvin hsz cs hst
   rw [e] at hrun
   simp only [Option.some.injEq, Prod.mk.injEq] at hrun
   obtain ⟨rfl, rfl⟩ := hrun
@@ -319,24 +318,24 @@ theorem resp_complete (wv v s : Nat) (hs : 1 ≤ s) (st : CMDResponse.St) (w : R
   exact ⟨by simpa [rest] using r.symm, hinv⟩
 
 /-- liveness: as soon as the consumer has been ready in 2s+4 cycles (spread in any way), the response is complete -/
-theorem resp_live (wv v s : Nat) (hs : 1 ≤ s) (st : CMDResponse.St) (w : RespW) (h0 : st.state = 0) (hv : w.valid = 0)
+theorem resp_live (wv v s : Nat) (st : CMDResponse.St) (w : RespW) (h0 : st.state = 0) (hv : w.valid = 0)
     (i0 : RespIn) (hi : i0.start ≠ 0) (hvin : i0.vin = v) (hsz : i0.size = s)
     (cs : List RespIn) (hst : ∀ i ∈ cs, i.start = 0) (hready : 2 * s + 4 ≤ readyCount cs) :
     ∃ f, respRun wv st w (i0 :: cs) = some (f, response wv s v) ∧ f.1.state = 0 ∧ f.2.valid = 0 := by
-  obtain ⟨ph', s', w', tr, e, hinv, r, n⟩ := resp_run wv v s hs st w h0 hv i0 hi hvin hsz cs hst
+  obtain ⟨ph', s', w', tr, e, hinv, r, n⟩ := resp_run wv v s st w h0 hv i0 hi hvin hsz cs hst
   have hn : need ph' = 0 := by omega
   cases ph' <;> simp [need] at hn
   simp only [Inv] at hinv
   refine ⟨(s', w'), ?_, hinv.1, hinv.2⟩
   rw [e]; simp [rest] at r; rw [r]
 
-/-- the response clause of the property in one statement: for every value, every requested number of digits `s ≥ 1`, every
+/-- the response clause of the property in one statement: for every value, every requested number of digits `s` (0 included), every
     character-wire width and EVERY consumer pacing that is ready often enough, the characters handed over (one per
     valid∧ready handshake) are exactly '=' , the low `s` nibbles of `v` as upper-case hex MSB first, '!' -/
-theorem resp_string (wv v s : Nat) (hs : 1 ≤ s) (r0 : Nat) (cs : List RespIn) (hst : ∀ i ∈ cs, i.start = 0)
+theorem resp_string (wv v s : Nat) (r0 : Nat) (cs : List RespIn) (hst : ∀ i ∈ cs, i.start = 0)
     (hready : 2 * s + 4 ≤ readyCount cs) :
     ∃ f, respRun wv CMDResponse.init ⟨0, 0⟩ (⟨1, v, s, r0⟩ :: cs) = some (f, response wv s v) ∧ f.1.state = 0 := by
-  obtain ⟨f, e, h, _⟩ := resp_live wv v s hs CMDResponse.init ⟨0, 0⟩ rfl rfl ⟨1, v, s, r0⟩ (by simp) rfl rfl cs hst hready
+  obtain ⟨f, e, h, _⟩ := resp_live wv v s CMDResponse.init ⟨0, 0⟩ rfl rfl ⟨1, v, s, r0⟩ (by simp) rfl rfl cs hst hready
   exact ⟨f, e, h⟩
 
 /-- an idle encoder stays silent while `start_resp` is low -/
@@ -361,11 +360,15 @@ theorem resp_busy_ignores_inputs (wv : Nat) (st : CMDResponse.St) (w : RespW) (a
   have hs : s = 1 ∨ s = 2 ∨ s = 3 ∨ s = 4 ∨ s = 5 ∨ s = 6 := by omega
   rcases hs with rfl | rfl | rfl | rfl | rfl | rfl <;> simp [respCycle, respRaises, CMDResponse.step]
 
-/-- the excluded point `size = 0`: after '=' has been taken, `CMDResponse.clock` evaluates `temp >> (-4)` and Python raises
-    ValueError (the model's `none`) — for every value, width and pacing.  See notes/C20.md (finding C20-resp-size-zero). -/
-theorem resp_size_zero_raises (wv v r0 : Nat) (j1 j2 : Nat × Nat) (cs : List RespIn) :
-    respRun wv CMDResponse.init ⟨0, 0⟩ (⟨1, v, 0, r0⟩ :: ⟨0, j1.1, j1.2, 1⟩ :: ⟨0, j2.1, j2.2, 1⟩ :: cs) = none := by
-  simp [respRun, respCycle, respRaises, CMDResponse.step, CMDResponse.init, upd, Py.truthy]
+/-- `size = 0` (no digits requested): the response is "=!" — for every value, character width and every pacing that is ready at
+    least 4 times.  (Before the repair 21add98 this was the negative theorem `resp_size_zero_raises`:
+      respRun wv init ⟨0,0⟩ (⟨1,v,0,r0⟩ :: ⟨0,_,_,1⟩ :: ⟨0,_,_,1⟩ :: cs) = none
+    i.e. after '=' had been taken `CMDResponse.clock` evaluated `temp >> (-4)` and Python raised ValueError; the former witness
+    start=1, vin=5, size=0 is kept as a regression test in harness/c20.py.) -/
+theorem resp_size_zero (wv v r0 : Nat) (cs : List RespIn) (hst : ∀ i ∈ cs, i.start = 0) (hready : 4 ≤ readyCount cs) :
+    ∃ f, respRun wv CMDResponse.init ⟨0, 0⟩ (⟨1, v, 0, r0⟩ :: cs) = some (f, [61 % 2 ^ wv, 33 % 2 ^ wv]) ∧ f.1.state = 0 := by
+  have h := resp_string wv v 0 r0 cs hst (by simpa using hready)
+  simpa [response, hexUpper] using h
 
 /-! ### the response format -/
 
@@ -430,5 +433,6 @@ example : (respRun 8 CMDResponse.init ⟨0, 0⟩ (⟨1, 0xBEEF, 4, 1⟩ :: exRea
 example : response 8 6 0xBEEF = [61, 48, 48, 66, 69, 69, 70, 33] := by decide
 example : response 8 2 0xBEEF = [61, 69, 70, 33] := by decide
 example : response 4 1 0xA = [13, 1, 1] := by decide
+example : (respRun 8 CMDResponse.init ⟨0, 0⟩ (⟨1, 5, 0, 1⟩ :: exReady)).map (·.2) = some [61, 33] := by decide +kernel
 
 end C20
